@@ -186,3 +186,37 @@ package v2
 //@   loop 1 invariant called("parseFilter") && ret1("parseFilter") == nil && called("Silences).Query") && ret2("Silences).Query") == nil
 //@   opaque parseFilter requestLogger CheckSilenceMatchesFilterLabels GettableSilenceFromProto SortSilences silence.QState Silences).Query
 //@   noeffect parseFilter requestLogger CheckSilenceMatchesFilterLabels GettableSilenceFromProto SortSilences silence.QState Silences).Query
+
+// C12: DELETE /silence/{id} expires exactly that id in the store and maps the outcome: done -> 200, unknown id -> 404,
+// anything else -> 500.
+//@ func (*API).deleteSilenceHandler
+//@   props C12
+//@   abstract
+//@   nosafe
+//@   assumes api != nil && api.silences != nil && tracer != nil
+//@   after call Tracer).Start assume res0 != nil && res1 != nil
+//@   after call errors.Is assume res0 == (arg0 == silence.ErrNotFound)
+//@   at call Silences).Expire assert [this-id-in-this-store] arg0 == api.silences && arg2 == ret("UUID).String")
+//@   at call errors.Is assert [is-it-unknown] arg0 == ret("Silences).Expire") && arg1 == silence.ErrNotFound
+//@   ensures [expired-once] count("Silences).Expire") == 1
+//@   ensures [done-is-200] ret("Silences).Expire") == nil ==> called("NewDeleteSilenceOK") && !called("NewDeleteSilenceNotFound") && !called("NewDeleteSilenceInternalServerError")
+//@   ensures [unknown-id-is-404] ret("Silences).Expire") != nil && ret("Silences).Expire") == silence.ErrNotFound ==> called("NewDeleteSilenceNotFound") && !called("NewDeleteSilenceOK")
+//@   ensures [other-failure-is-500] ret("Silences).Expire") != nil && ret("Silences).Expire") != silence.ErrNotFound ==> called("NewDeleteSilenceInternalServerError") && !called("NewDeleteSilenceOK")
+//@   opaque requestLogger Silences).Expire
+//@   noeffect requestLogger Silences).Expire errors.Is UUID).String WithEventRecording
+
+// C12: GET /silence/{id} asks the store for exactly that id and answers with the silence found, 404 when there is none.
+//@ func (*API).getSilenceHandler
+//@   props C12
+//@   abstract
+//@   nosafe
+//@   assumes api != nil && api.silences != nil && tracer != nil
+//@   after call Tracer).Start assume res0 != nil && res1 != nil
+//@   at call silence.QIDs assert [exactly-this-id] len(arg0) == 1 && arg0[0] == ret("UUID).String")
+//@   at call Silences).Query assert [this-store] arg0 == api.silences
+//@   at call GettableSilenceFromProto assert [the-silence-found] len(ret("Silences).Query")) > 0 && arg0 == ret("Silences).Query")[0]
+//@   ensures [store-error-is-500] ret2("Silences).Query") != nil ==> called("NewGetSilenceInternalServerError") && !called("NewGetSilenceOK")
+//@   ensures [none-is-404] ret2("Silences).Query") == nil && len(ret("Silences).Query")) == 0 ==> called("NewGetSilenceNotFound") && !called("NewGetSilenceOK")
+//@   ensures [found-is-200] ret2("Silences).Query") == nil && len(ret("Silences).Query")) > 0 && called("GettableSilenceFromProto") && ret1("GettableSilenceFromProto") == nil ==> called("NewGetSilenceOK")
+//@   opaque requestLogger Silences).Query silence.QIDs GettableSilenceFromProto
+//@   noeffect requestLogger Silences).Query silence.QIDs GettableSilenceFromProto UUID).String
